@@ -196,7 +196,7 @@ def in_child(fn):
     return json.loads(data) if data else {"skip": True, "error": "no result from the child"}
 
 
-def one_request(game, hostname, disc, cls, conf):
+def one_request(game, hostname, disc, cls, conf, mode="routes"):
     node = game.simulation.network.get_node_by_hostname(hostname)
     try:
         action_cfg = cls.ConfigSchema(type=disc, **conf)
@@ -209,7 +209,7 @@ def one_request(game, hostname, disc, cls, conf):
             node.software_manager.install(Application._registry[request[4]])
         except Exception:  # noqa: BLE001
             pass
-    if not addressed_components_exist(request, game) or not has_operation(request, game):
+    if mode == "routes" and (not addressed_components_exist(request, game) or not has_operation(request, game)):
         return {"skip": True}
     try:
         resp = game.simulation.apply_request(request, {})
@@ -218,6 +218,19 @@ def one_request(game, hostname, disc, cls, conf):
     except Exception as e:  # noqa: BLE001
         # totality is C01's subject (bounded/action_total.py reports it); here only the routing verdict counts
         return {"skip": False, "bad": False, "raised": f"{type(e).__name__}: {str(e)[:300]}", "request": [str(x) for x in request]}
+
+
+MISSING = {"application_name": "no-such-application", "service_name": "no-such-service", "folder_name": "no-such-folder",
+           "file_name": "no-such-file.txt", "target_file_name": "no-such-file.txt", "target_folder_name": "no-such-folder",
+           "username": "no-such-user", "nic_num": 99, "port_num": 99}
+
+
+def with_missing(conf):
+    """Variants of a parameter choice in which ONE name-like parameter names something that does not exist (C01: 'actions aimed at
+    missing ... components')."""
+    for k, v in MISSING.items():
+        if k in conf:
+            yield dict(conf, **{k: v})
 
 
 def main(mode="routes"):
@@ -233,8 +246,10 @@ def main(mode="routes"):
                     configs = list(expand(cls, pnode, game))
                 except Exception:  # noqa: BLE001
                     configs = []
+                if mode == "total":
+                    configs = configs + [m for c in configs[:2] for m in with_missing(c)]
                 for conf in configs:
-                    res = in_child(lambda: one_request(game, hostname, disc, cls, conf))
+                    res = in_child(lambda: one_request(game, hostname, disc, cls, conf, mode))
                     if res.get("skip"):
                         continue
                     cs = cases.setdefault(disc, {"name": disc, "checked": 0, "counterexample": None})
